@@ -43,6 +43,11 @@ func nondetSource(c Callee) string {
 		case "Now", "Since", "Until", "After", "Sleep", "Tick", "NewTimer", "NewTicker", "AfterFunc":
 			return "wall clock (time." + c.Name + ")"
 		}
+	case "context":
+		switch c.Name {
+		case "WithTimeout", "WithDeadline", "WithTimeoutCause", "WithDeadlineCause":
+			return "wall clock (context." + c.Name + ": the deadline is measured on the node's clock)"
+		}
 	case "math/rand", "math/rand/v2", "crypto/rand":
 		return "randomness (" + c.Pkg + "." + c.Name + ")"
 	case "runtime":
@@ -1395,6 +1400,9 @@ func inMemoryWrites(w *World) ([]memWrite, int, ReachSet) {
 					switch c.Name {
 					case "Store", "LoadOrStore", "LoadAndDelete", "Delete", "Swap", "CompareAndSwap", "CompareAndDelete", "Clear", "Add", "And", "Or":
 						mut = c.Recv == "Map" || c.Pkg == "sync/atomic"
+					}
+					if c.Pkg == "sync" && c.Recv == "Once" && c.Name == "Do" {
+						mut = true // "already done" is process-lifetime state: it resets with a restart, not with the chain
 					}
 					if c.Pkg == "sync/atomic" && c.Recv == "" && (strings.HasPrefix(c.Name, "Store") || strings.HasPrefix(c.Name, "Add") || strings.HasPrefix(c.Name, "Swap") || strings.HasPrefix(c.Name, "CompareAndSwap")) {
 						mut = true
